@@ -110,6 +110,38 @@ class CallGraph:
                     stack.append(b)
         return out
 
+    def _related(self, a, b):
+        return a == b or a in self._subclasses(b) or b in self._subclasses(a)
+
+    def _listener_class(self, recv):
+        """Static class of the object a listener is registered on (through shared_ptr if needed)."""
+        if not isinstance(recv, dict):
+            return None
+        for n in walk(recv):
+            rc = n.get('rc')
+            if not rc:
+                continue
+            if rc.startswith(('std::shared_ptr<', 'std::unique_ptr<')):
+                inner = rc[rc.index('<') + 1:]
+                depth = 0
+                out = ''
+                for ch in inner:
+                    if ch == '<':
+                        depth += 1
+                    if ch == '>' and depth == 0:
+                        break
+                    if ch == '>':
+                        depth -= 1
+                    if ch == ',' and depth == 0:
+                        break
+                    out += ch
+                return strip_targs(out.strip())
+            if rc in self.fb.records:
+                return strip_targs(rc)
+        if recv.get('k') == 'this':
+            return None
+        return None
+
     @staticmethod
     def _class_of_type(t):
         if not t:
@@ -231,17 +263,25 @@ class CallGraph:
                             cargs.append(nd['f'])
                 if cargs and k == 'ctor' and e.get('copy') and '(lambda@' in (e.get('f') or ''):
                     cargs = []      # copy/move of the closure object itself
+                if cargs and k == 'ctor' and (e.get('cls') or '').startswith('std::function'):
+                    handed.update(cargs)
+                    cargs = []      # wrapping a callable in std::function does not invoke it; the
+                                    # call that receives the wrapper sees the callable through its argument tree
                 if cargs:
                     handed.update(cargs)
                     if _is_thread_sink(e):
                         for c in cargs:
                             self.thread_roots.append((c, f.key, e))
                     elif n == LISTENER_SINK or (n.endswith('::addListener') and n.startswith('Parameters::')):
+                        a_ = [x for x in e.get('args', [])]
+                        call_now = not (len(a_) >= 2 and isinstance(a_[1], dict) and a_[1].get('cv') == 0)
+                        rcls = self._listener_class(e.get('recv'))
                         for c in cargs:
-                            self.listeners.append((c, f.key))
-                            for inv in LISTENER_INVOKERS:
-                                for g in by_sname.get(inv, []):
-                                    self._add(g.key, c, None)
+                            self.listeners.append((c, f.key, call_now, rcls))
+                            if call_now:
+                                # addListener(f, callNow=true) invokes exactly the callable being registered
+                                self._add(f.key, c, (bid, i, e))
+                                self.extra_at[(f.key, id(e))].add(c)
                     elif n == POOL_ADD:
                         for c in cargs:
                             self.pool_tasks[f.key].append(c)
@@ -319,6 +359,19 @@ class CallGraph:
             p = f.d.get('pattern')
             if p and p in fb.funcs:
                 self._add(p, f.key, None)
+        # Listener::notify() invoked from a method of class K runs the listeners registered on objects
+        # whose static class is related to K (receiver-class sensitivity; an unknown receiver class
+        # falls back to "every listener")
+        for f in fb.funcs.values():
+            if not f.has_cfg:
+                continue
+            for bid, i, e in f.events():
+                if e.get('k') == 'call' and cname(e) == 'Parameters::Listener::notify':
+                    k = strip_targs(f.d.get('cls') or '')
+                    for (lam, regf, call_now, rcls) in self.listeners:
+                        if rcls is None or not k or self._related(k, rcls):
+                            self._add(f.key, lam, (bid, i, e))
+                            self.extra_at[(f.key, id(e))].add(lam)
 
     def _add(self, a, b, site):
         self.edges[a].add(b)
